@@ -95,6 +95,8 @@ def floor(ctx, keys, seed):
         ctx.count('inputs-parsed', d['parsed'])
         ctx.count('inputs-all-laws-hold', d['laws_ok'])
         ctx.count('explicit-refusals(container content not understood)', d['refusals'])
+        for fn_, ex_ in d.get('forms_refused', {}).items():
+            ctx.count('buffer-form-refused:%s:%s' % (fn_, ex_))
         if d.get('nonzero_padding'):
             ctx.count('inputs-with-nonzero-reserved-attribute:' + key, d['nonzero_padding'])
         for pk, c in d['parse_fail'].items():
@@ -534,8 +536,11 @@ def run(ctx):
                             'registered ConfigType / InterfaceConfigType / FaultType sub-payload inside SetConfigMessage, ConfigResponseMessage, FaultControlMessage. '
                             'Inputs per key: minimal all-zero encoding, default object, then single-byte, 16/32/64-bit boundary words (sentinels, 1 ns stamps, '
                             '10^9 ns, NaN/inf/denormal patterns, enum values known and unknown) at every position, count bytes 0..N with the announced tail '
-                            'appended, random multi-field mutations. A case is distinct by (key, input bytes). Offsets %s, caller-supplied bytearray and '
-                            'library-allocated buffer.' % ('0..16' if ctx.thorough else '{0,1,3,8}'))
+                            'appended (sizes 0, 1, 255, 256, 300, 65535, 65536, 70000 as far as the count field allows), unknown values in every lenient enum field, '
+                            'every event type with the rewritten preamble, containers with error / none / header-only content, random multi-field mutations. '
+                            'Per input also: unpack from bytes / bytearray / memoryview / numpy uint8 buffers at two offsets (then the buffer is cleared), the same object '
+                            'reused after another (possibly refused) parse, explicit message_version, unpack options, numpy errstate raise, earlier returned buffers. '
+                            'A case is distinct by (key, input bytes). Offsets %s, caller-supplied bytearray and library-allocated buffer.' % ('0..16' if ctx.thorough else '{0,1,3,8}'))
     ctx.coverage['exhaustive'] = False
     ctx.trusted_base += ['harness/py/c01_laws.py (law evaluation, canonical field comparison: floats by bit pattern with all NaNs equal, enums by value, '
                          'underscore-prefixed attributes and MessageHeader.reserved (padding, zeroed by pack by design) ignored; cross-object stage: objects kept '
